@@ -345,7 +345,9 @@ fn gcra_case(t: &[&str]) -> String {
 
 fn ratelayer_case(t: &[&str]) -> String {
     // ratelayer <block|err> <period_ms> <burst> <p@ms>*   -- the real layer, real clock
-    let mode = if t[1] == "block" { rate_limit::WaitMode::Block } else { rate_limit::WaitMode::ReturnError };
+    // <mode>[+same]: with "+same" every request goes through one and the same service value (see the inflight driver)
+    let same = t[1].ends_with("+same");
+    let mode = if t[1].starts_with("block") { rate_limit::WaitMode::Block } else { rate_limit::WaitMode::ReturnError };
     let period = Duration::from_millis(t[2].parse().unwrap());
     let burst: u32 = t[3].parse().unwrap();
     let quota = governor::Quota::with_period(period)
@@ -371,15 +373,38 @@ fn ratelayer_case(t: &[&str]) -> String {
         .collect();
     let res = rt.block_on(async move {
         let mut handles = Vec::new();
+        let mut evs = evs;
+        if same {
+            evs.sort_by_key(|e| e.1);
+        }
+        let mut shared = svc.clone();
         for (p, at) in evs {
             let s = svc.clone();
-            handles.push(tokio::spawn(async move {
+            // in "+same" mode the call is made here, in time order, on the one shared value; only its future is spawned
+            let pre = if same {
+                use tower::Service as _;
                 tokio::time::sleep_until(tokio::time::Instant::from_std(start + Duration::from_millis(at))).await;
                 let req = Request::new(Bytes::new())
                     .with_header("p", p.to_string())
                     .with_extension(peer(p));
                 let sent = start.elapsed().as_nanos();
-                let r = s.oneshot(req).await;
+                let fut = tower::ServiceExt::ready(&mut shared).await.unwrap().call(req);
+                Some((sent, fut))
+            } else {
+                None
+            };
+            handles.push(tokio::spawn(async move {
+                let (sent, r) = match pre {
+                    Some((sent, fut)) => (sent, fut.await),
+                    None => {
+                        tokio::time::sleep_until(tokio::time::Instant::from_std(start + Duration::from_millis(at))).await;
+                        let req = Request::new(Bytes::new())
+                            .with_header("p", p.to_string())
+                            .with_extension(peer(p));
+                        let sent = start.elapsed().as_nanos();
+                        (sent, s.oneshot(req).await)
+                    }
+                };
                 let done = start.elapsed().as_nanos();
                 match r {
                     Ok(_) => format!("{p}:ok:{sent}:{done}"),
